@@ -503,7 +503,7 @@ def run(ctx):
             "(one fate per STATU/STATV datagram from {deliver,drop,dup,delay-past-successor,delay-into-next-attempt}) "
             "and stationary adversaries; distinct_nontrivial counts distinct client-path pairs + distinct end "
             "blocks/outcomes reached under faults + adversary scripts (chain-level pairs are not counted)")
-    ctx.sample({"transfer": {"start": 100, "length": 60, "R": R_all}, "fates": ["deliver", "drop", "dup"],
+    ctx.sample({"transfer": {"start": 100, "length": 60, "R": 2}, "fates": ["deliver", "drop", "dup"],
                 "oracle": "True => one install == spa[start:start+n]; False => block untouched; STATU<=R"})
     ctx.sample({"adversary": "always drop segment 13 of the full transfer, R=10", "expect": "False, 10 requests, block untouched"})
     ctx.set("exhaustive", not ctx.caps_hit)
